@@ -69,7 +69,9 @@ class World:
 
     def __init__(self, Time, kind: str, sizes):
         self.Time = Time
-        self.kind = kind  # "mjd" (1 column, utc) or "gps_ws" (3 columns, gps)
+        # "mjd" (1 column, utc), "gps_ws" (3 columns, gps) or "leap" (1 column, utc: epochs on both sides of a step of TAI-UTC,
+        # not in time order: the first and the last epoch lie before the step, inner ones after it)
+        self.kind = kind
         self.arrs = []
         self.tab1, self.tab2, self.tabv = {}, {}, {}
         self.fresh = []
@@ -82,6 +84,11 @@ class World:
             if kind == "mjd":
                 mjd = np.array([51544.0 + 3 * (base + k) + (k + 1 + 7 * bi) / 64.0 for k in range(n)])
                 t = Time(mjd, fmt="mjd", scale="utc")
+            elif kind == "leap":
+                step = ([57204.0, 38761.0, 41317.0][n % 3], [57754.0, 39126.0][n % 2])[bi % 2] + 5000.0 * (bi // 2)
+                off = [-2.0] if n == 1 else [-2.0, 1.0] if n == 2 else [-2.0] + [3.0, -3.0, 2.0, 4.0, -4.0][:n - 2] + [-1.0]
+                frac = [1.0 - 2.0 ** -(14 + bi) if o == -1.0 else (k + 1 + 7 * bi) / 64.0 for k, o in enumerate(off)]
+                t = Time(np.array([step + o + f for o, f in zip(off, frac)]), fmt="mjd", scale="utc")
             else:
                 week = np.array([1000.0 + base + k for k in range(n)])
                 sec = np.array([3600.0 * (k + 1) + 450.0 * (bi + 1) + 86400.0 * (k % 3) for k in range(n)])
@@ -90,8 +97,17 @@ class World:
             self.arrs.append(t)
             self.base_scale = t.scale
             # conversions are elementwise and deterministic: register the converted epochs under the same tags
-            for conv in (t, t.tai, getattr(t.tai, t.scale)):
-                self._register(conv, base)
+            if kind == "leap":
+                # one epoch at a time: what an epoch converts to must not depend on the epochs it is converted with
+                self._register(t, base)
+                for k in range(n):
+                    e = Time(float(np.asarray(t)[k]), fmt="mjd", scale="utc")
+                    # (only the way to TAI is driven as an operation in this class: the way back does not reproduce the UTC
+                    # numbers bit by bit; it is covered by the oracle "scale access commutes with indexing")
+                    self._register(e.tai, base + k)
+            else:
+                for conv in (t, t.tai, getattr(t.tai, t.scale)):
+                    self._register(conv, base)
 
     def _rows(self, x):
         v = np.asarray(x)
@@ -159,8 +175,8 @@ def sel_token(sel):
 
 def op_token(op):
     k = op[0]
-    if k == "getint":
-        return f"getint:{op[1]}:{op[2]}"
+    if k in ("getint", "getell"):
+        return f"{k}:{op[1]}:{op[2]}"
     if k in ("getsel", "subset"):
         return f"{k}:{op[1]}:{sel_token(op[2])}"
     if k == "insert":
@@ -289,6 +305,9 @@ def _apply_op(w: World, op, variant_rng):
         if k == "getint":
             i = op[2]
             r = t[np.int64(i)] if variant_rng.random() < 0.3 else t[i]
+        elif k == "getell":
+            i = op[2]
+            r = t[..., i] if t.fmt != "gps_ws" and variant_rng.random() < 0.5 else t[i, ...]
         elif k == "getsel":
             idx = np_index(op[2])
             v = variant_rng.randrange(5)
@@ -379,7 +398,8 @@ def gen_exhaustive_alphabet(n):
               ("getsel", tgt, ("s", 1, 3, 1)), ("getsel", tgt, ("s", None, None, -1)),
               ("getsel", tgt, ("m", "alt")), ("getsel", tgt, ("i", "rev2")),
               ("view", tgt), ("copy", tgt), ("subset", tgt, ("m", "alt")), ("scale", tgt), ("iter", tgt),
-              ("getbad", tgt, ("n", 1)), ("getbad", tgt, ("s", 1, 3, 1)), ("same", tgt), ("refused", tgt, "flatten")]
+              ("getbad", tgt, ("n", 1)), ("getbad", tgt, ("s", 1, 3, 1)), ("same", tgt), ("refused", tgt, "flatten"),
+              ("getell", tgt, -1)]
     A.append(("insert", 0, 1, 1))
     A.append(("concat", [0, 1], False))
     A.append(("refused", 0, "sort"))
@@ -387,6 +407,8 @@ def gen_exhaustive_alphabet(n):
 
 
 def scale_target(w: World, t):
+    if w.kind == "leap":
+        return "tai"
     return "tai" if t.scale != "tai" else w.base_scale
 
 
@@ -406,7 +428,7 @@ def concretise(op, w: World, last):
         elif sel[0] == "i" and sel[1] == "rev2":
             sel = ("i", [n - 1, 0] if n > 0 else [])
         return (op[0], tgt, sel)
-    if op[0] == "getint":
+    if op[0] in ("getint", "getell"):
         return (op[0], tgt, op[2])
     if op[0] == "insert":
         return ("insert", tgt, op[2], op[3])
@@ -444,7 +466,7 @@ def random_op(rng, w: World):
     if k < 0.12:
         t = rng.choice(nonscalar)
         n = len(w.arrs[t].jd1)
-        return ("getint", t, rng.randint(-n - 1, n))
+        return ("getint" if rng.random() < 0.7 else "getell", t, rng.randint(-n - 1, n))
     if k < 0.32:
         t = rng.choice(nonscalar)
         return ("getsel", t, random_sel(rng, len(w.arrs[t].jd1)))
@@ -480,7 +502,10 @@ def random_op(rng, w: World):
         return ("subset", t, s)
     if k < 0.82:
         a = rng.choice(nonscalar)
-        b = rng.choice([i for i in nonscalar if len(w.arrs[i].jd1) > 0] or nonscalar)
+        # (leap-second class: only arrays of the scale of `a` are inserted, the way back from TAI does not reproduce the UTC
+        # numbers bit by bit and has no tags)
+        b = rng.choice([i for i in nonscalar if len(w.arrs[i].jd1) > 0 and (w.kind != "leap" or w.arrs[i].scale == w.arrs[a].scale)]
+                       or [a])
         n = len(w.arrs[a].jd1)
         return ("insert", a, rng.randint(-n, n) if rng.random() < 0.9 else n + 2, b)
     if k < 0.90:
@@ -519,6 +544,66 @@ def check_object(ctx: Ctx, w: World, x, where, case):
             ctx.violate(f"writable-{name}:" + where, f"{name} of a derived array is writable", case)
 
 
+SCALES = ("utc", "tai", "gps", "tt", "tcg")
+
+
+def check_scale_commutes(ctx: Ctx, x, case):
+    """scale access commutes with indexing: t.<scale>[i], t[i].<scale> and t[i:i+1].<scale>[0] are the same epoch
+    (the conversions are sums and products element by element: the same floating-point numbers are demanded)"""
+    n = len(np.atleast_1d(x.jd1))
+    for sc in SCALES:
+        try:
+            whole = getattr(x, sc)
+        except Exception as e:  # noqa
+            ctx.violate(f"scale-raises:{x.scale}->{sc}", f"{type(e).__name__}: {e}", case)
+            continue
+        for i in range(n):
+            try:
+                a, b, c = whole[i], getattr(x[i], sc), getattr(x[i:i + 1], sc)[0]
+                got = [(float(y.jd1), float(y.jd2)) for y in (a, b, c)]
+            except Exception as e:  # noqa
+                ctx.violate(f"scale-commutes-raises:{x.scale}->{sc}", f"{type(e).__name__}: {e}", case)
+                break
+            if not (got[0] == got[1] == got[2]):
+                sec = max(abs((g[0] - got[1][0]) + (g[1] - got[1][1])) for g in got) * 86400
+                ctx.violate(f"scale-commutes:{x.scale}->{sc}",
+                            f"epoch {i} of a {n}-epoch array: t.{sc}[i], t[i].{sc}, t[i:i+1].{sc}[0] have (jd1, jd2) {got} ({sec:.3g} s apart)", case)
+                break
+    ctx.count("scale-commutes:arrays-checked")
+
+
+def check_column_indices(ctx: Ctx, Time):
+    """indices that select fields (columns) of the three-column format: whatever comes back as a time array must have a length
+    equal to its number of epochs"""
+    g = Time(np.array([1000.0 + k for k in range(5)]), val2=np.array([3600.0 * (k + 1) for k in range(5)]), fmt="gps_ws", scale="gps")
+    probes = [("g[1:3, 0]", lambda: g[1:3, 0]), ("g[:, 1]", lambda: g[:, 1]), ("g[..., 0]", lambda: g[..., 0]),
+              ("g[1:3, 0:2]", lambda: g[1:3, 0:2]), ("g[[0, 2], [0, 1]]", lambda: g[[0, 2], [0, 1]]), ("g[2, 0:2]", lambda: g[2, 0:2]),
+              ("g[2][0:1]", lambda: g[2][0:1]), ("g[2][[0, 1]]", lambda: g[2][[0, 1]]), ("g[1:3, :]", lambda: g[1:3, :]),
+              ("g[2, 0]", lambda: g[2, 0]), ("g[(2,)]", lambda: g[(2,)])]
+    for name, f in probes:
+        case = {"kind": "gps_ws", "index": name}
+        try:
+            r = f()
+        except (IndexError, ValueError, TypeError):
+            ctx.count("column-index:refused")
+            continue
+        except Exception as e:  # noqa
+            ctx.violate("column-index-raises", f"{name} raises {type(e).__name__}: {e}", case)
+            continue
+        if not hasattr(r, "jd1"):
+            ctx.count("column-index:plain-result")
+            continue
+        n = int(np.size(r.jd1))
+        try:
+            ln = len(r)
+        except TypeError:
+            ln = None
+        if ln != n:
+            ctx.violate("len:column-index", f"{name} is a time array of shape {np.shape(r)} with {n} epochs (jd1) and len() = {ln}", case)
+        else:
+            ctx.count("column-index:time-array-with-right-length")
+
+
 def check_immutable(ctx: Ctx, x, case):
     before = (np.asarray(x).tolist(), np.asarray(x.jd1).tolist(), np.asarray(x.jd2).tolist(), x.fmt)
     for what, f in (("setitem", lambda: x.__setitem__(0 if np.ndim(x) else (), 1.0)),
@@ -546,7 +631,7 @@ def run_sequence(ctx: Ctx, Time, kind, sizes, ops_symbolic, rng, exhaustive):
             op = sop(w)
         else:
             op = concretise(sop, w, last)
-            if op[0] != "concat" and is_scalar(w.arrs[op[1]]) and op[0] in ("getint", "getsel", "subset", "iter", "insert"):
+            if op[0] != "concat" and is_scalar(w.arrs[op[1]]) and op[0] in ("getint", "getell", "getsel", "subset", "iter", "insert"):
                 op = ("view", op[1])
         ops.append(op)
         nbefore = len(w.arrs)
@@ -577,7 +662,8 @@ def run_sequence(ctx: Ctx, Time, kind, sizes, ops_symbolic, rng, exhaustive):
             else:
                 n = len(tt.jd1)
                 ok = (-n <= op[2][1] < n) if op[2][0] == "n" else py_positions(op[2], n) is not None
-                ctx.count("getbad:jd-parts-sliced-then-refused" if ok else "getbad:first-entry-refused")
+                ctx.count("getbad:refused-by-the-jd-parts(one column)" if tt.fmt != "gps_ws" else
+                          "getbad:jd-parts-sliced-then-refused" if ok else "getbad:first-entry-refused")
     # pairs of arrays for == / hash: arrays holding the same epochs (by whatever path they were derived), and random ones
     groups = {}
     for i, x in enumerate(w.arrs):
@@ -661,10 +747,10 @@ def run_sequence(ctx: Ctx, Time, kind, sizes, ops_symbolic, rng, exhaustive):
             pos = py_positions(op[2], len(parent[1]))
             if pos is None or [parent[1][p] for p in pos] != r[1][1]:
                 ctx.violate(f"index-semantics:{op[0]}", f"{op_token(op)} selected {r[1][1]} from {parent[1]}", case)
-        if op[0] == "getint" and r[0] == "A":
+        if op[0] in ("getint", "getell") and r[0] == "A":
             parent = w.obs(w.arrs[op[1]])
             if [parent[1][op[2]]] != r[1][1]:
-                ctx.violate("index-semantics:getint", f"{op_token(op)} gave {r[1][1]} from {parent[1]}", case)
+                ctx.violate("index-semantics:" + op[0], f"{op_token(op)} gave {r[1][1]} from {parent[1]}", case)
         if op[0] != "set":
             n0 = len(w.arrs)
             saved = rng.getstate()
@@ -689,6 +775,20 @@ def run_sequence(ctx: Ctx, Time, kind, sizes, ops_symbolic, rng, exhaustive):
                 ctx.violate("hash-eq", "two equal time arrays have different hashes", case)
             if not eq and len(key[2]) > 0:
                 ctx.violate("eq-same-epochs", "two arrays with identical jd parts compare unequal", case)
+    # scale access commutes with indexing (every array of the leap-second class, a sample of the others)
+    cand = [x for i, x in enumerate(w.arrs) if not is_scalar(x) and w.first_index(x) == i and len(x.jd1) > 0]
+    if kind == "leap":
+        for x in cand:
+            o = [float(a) + float(b) for a, b in zip(np.atleast_1d(x.jd1), np.atleast_1d(x.jd2))]
+            sorted_like = all(a <= b for a, b in zip(o, o[1:]))
+            ctx.count("leap:array-" + ("in-time-order" if sorted_like else "not-in-time-order") + ("-3+epochs" if len(o) >= 3 else ""))
+    if kind == "leap":   # reordered arrays of 3 and more epochs first
+        def _prio(x):
+            o = [float(a) + float(b) for a, b in zip(np.atleast_1d(x.jd1), np.atleast_1d(x.jd2))]
+            return (not (len(o) >= 3 and any(a > b for a, b in zip(o, o[1:]))), -len(o))
+        cand = sorted(cand, key=_prio)
+    for x in (cand[:5] if kind == "leap" else rng.sample(cand, min(1, len(cand)))):
+        check_scale_commutes(ctx, x, case)
     ctx.count("cross-scale-shadow-same-jd", w.shadowed) if w.shadowed else None
     ctx.count("scale-conversion-from-the-memo(no new array)", w.cached_scale) if w.cached_scale else None
     if exhaustive is False and rng.random() < 0.3:
@@ -727,7 +827,7 @@ def path_sequence(rng):
             lambda w: ("copy", len(w.arrs) - 3),
             lambda w: ("view", len(w.arrs) - 3),
             lambda w: ("scale", len(w.arrs) - 2, "tai"),
-            lambda w: ("scale", len(w.arrs) - 1, w.base_scale),
+            lambda w: ("scale", len(w.arrs) - 1, w.base_scale if w.kind != "leap" else "tai"),
             lambda w: ("same", len(w.arrs) - 1)]
 
 
@@ -741,10 +841,10 @@ def run(ctx: Ctx):
     Time = _imp()
     rng = ctx.rng
     ctx.rule = ("operation sequences over {t[i], t[a:b:c], t[mask], t[int list] (also as one-entry tuples / with Ellipsis / ':'), "
-                "tuple indices NumPy refuses after the jd parts were sliced (t[first, 0], g[first, 3]), view/T/reshape/ravel/ufunc, "
+                "tuple indices NumPy refuses (g[first, 3]: after the jd parts were sliced; t[first, 0]), single epochs as tuple indices (t[i, ...], t[..., i]), view/T/reshape/ravel/ufunc, "
                 "squeeze()/own scale (the object itself), flatten/astype/np.unique/np.sort (refused), np.concatenate/np.append (plain "
                 "ndarray), copy/copy.copy/deepcopy, subset, insert, scale conversion there and back, iterate, refused assignment}: "
-                "all sequences up to length L over a 33-letter alphabet (targets: base array / last result) for 1-column (mjd) and "
+                "all sequences up to length L over a 35-letter alphabet (targets: base array / last result) for 1-column (mjd) and "
                 "3-column (gps_ws) arrays, plus random sequences up to length 40 over arrays of length 0..6 and derivation-path "
                 "sequences (t[s1][s2] / t[[composed]] / subset / copy / view / TAI and back); for every operation the "
                 "__array_finalize__ calls of the real code are recorded and compared with the model's, for pairs of arrays == and "
@@ -763,8 +863,8 @@ def _run_all(ctx: Ctx, Time, rng):
     L = 3 if ctx.thorough else 2
     alphabet = gen_exhaustive_alphabet(4)
     n_ex = 0
-    for kind in ("mjd", "gps_ws"):
-        for length in range(1, L + 1):
+    for kind in ("mjd", "gps_ws", "leap"):
+        for length in range(1, (L if kind != "leap" else L - 1) + 1):
             for seq in itertools.product(alphabet, repeat=length):
                 run_sequence(ctx, Time, kind, (4, 2), list(seq), rng, True)
                 n_ex += 1
@@ -772,19 +872,20 @@ def _run_all(ctx: Ctx, Time, rng):
     ctx.extra["exhaustive_max_length"] = L
     # a sample of length-(L+1) sequences
     for _ in range(ctx.budget(300, 6000)):
-        kind = rng.choice(["mjd", "gps_ws"])
+        kind = rng.choice(["mjd", "gps_ws", "leap"])
         seq = [rng.choice(alphabet) for _ in range(L + 1)]
         run_sequence(ctx, Time, kind, (4, 2), seq, rng, True)
     # long random sequences
     for _ in range(ctx.budget(150, 5000)):
-        kind = rng.choice(["mjd", "gps_ws"])
+        kind = rng.choice(["mjd", "gps_ws", "leap"])
         sizes = (rng.randint(1, 6), rng.randint(1, 4))
         length = rng.randint(3, 40)
         seq = [(lambda w, _r=rng: random_op(_r, w)) for _ in range(length)]
         run_sequence(ctx, Time, kind, sizes, seq, rng, False)
+    check_column_indices(ctx, Time)
     # derivation paths to the same epochs
     for _ in range(ctx.budget(120, 3000)):
-        kind = rng.choice(["mjd", "gps_ws"])
+        kind = rng.choice(["mjd", "gps_ws", "leap"])
         run_sequence(ctx, Time, kind, (rng.randint(2, 6), rng.randint(1, 3)), path_sequence(rng), rng, False)
     ctx.traces = ctx.evaluations
 
